@@ -1,12 +1,18 @@
 (* C05 — precise search = exhaustive negamax; verdicts hold on reused engines.
-   Only statements, `exact`, and Print Assumptions live here.  Proofs: Pvs.v, NegamaxSpec.v, SearchGen.v, SearchExact.v; model: Search.v.
+   Only statements, `exact`, and Print Assumptions live here.  Proofs: Pvs.v, NegamaxSpec.v, SearchGen.v, SearchExact.v, SearchNeg1-5.v;
+   model: Search.v.
 
    Full statement of the property (DESIGN 5.5) and what is proved:
      zw_correct / pvs_correct      PROVED, abstractly (C05_pvs_correct) and for the concrete engine model (C05_search_window_partial).
      analyze_precise_exact         PROVED for the engine model Search.v, on every engine state without a table (fresh or left by ANY
-                                   history of earlier calls), modulo explicitly listed facts about the rules engine and the evaluator
-                                   (rules_facts: C03's "every accepted move is generated", a bound on the number of generated moves,
-                                   "an unfinished game has a legal move", C18's |eval| <= MaxEval) — hence the suffix _partial.
+                                   history of earlier calls, completed or cancelled), for a call cancelled at ANY point or never:
+                                   C05_analyze_precise_exact (boards up to 5x5, at most 51 pieces, both evaluators of the check:
+                                   NO hypothesis about the rules engine or the evaluator is left - C01/C02/C03/C04/C18 discharge them),
+                                   C05_analyze_precise_exact_game (every position of a game replayed from tak.New),
+                                   C05_analyze_precise_exact_winner / _default (any size: under the side condition `within`, which says
+                                   that the searched tree stays inside the loop fuel of the MODEL - 690 generated moves per node - and
+                                   inside C01's 64-piece stack limit; proved outright for the small boards: C05_within_small).
+                                   The conditional forms over an abstract set of positions keep the suffix _partial.
      analyze_all_exact             not proved (AnalyzeAll is modelled, Search.analyze_all; its set of first moves is compared with the
                                    exhaustive oracle and with the implementation on every run).
      dedup_value_preserving        not proved and not modelled (DedupSymmetry); judged by the exhaustive oracle only.
@@ -27,7 +33,9 @@
    on the concrete loops with "the successors seen so far" in place of the list prefix, against NegamaxSpec.nmx — which is
    Pvs.negamax on the game tree of the rules model (tree_of). *)
 From Coq Require Import NArith ZArith List Bool.
-Require Import Board Move GameOver Eval Search NegamaxSpec SearchGen SearchExact SearchEx.
+Require Import Board Move GameOver Eval EvalSpec Search NegamaxSpec SearchGen SearchExact SearchEx SearchInst SearchC CancelEx.
+Require Import Preserve1 Reach1 Alloc SearchNeg1 SearchNeg2 SearchNeg3 SearchNeg4 SearchNeg5.
+Require Import Generated.Consts.
 Require Pvs.
 Import ListNotations.
 Open Scope Z_scope.
@@ -67,6 +75,112 @@ Theorem C05_analyze_precise_exact_partial : forall basis cfg Pos, precise cfg ->
   SI sk /\ (0 < d -> exact_result basis cfg p pv v d).
 Proof. exact analyze_precise_exact_fixed. Qed.
 Print Assumptions C05_analyze_precise_exact_partial.
+
+(* ---- the same with the hypotheses asked only where the search goes, and for a call cancelled anywhere ----
+   rules_factsx basis cfg Pos: the five facts of rules_facts for a family Pos d of positions indexed by the remaining depth
+   (a successor of a Pos (S d) position is a Pos d position; nothing is asked of the successors of Pos 0 positions).
+   analyze_cancel basis cfg k: the context is cancelled inside the k-th leaf evaluation of the call (k = 0: never; analyze_search). *)
+Theorem C05_analyze_precise_exact_indexed_partial : forall basis cfg Pos, precise cfg -> rules_factsx basis cfg Pos ->
+  forall k s p sk pv v d acc c, SI s ->
+  (forall d, (1 <= d <= 16)%nat -> Z.of_nat d <= c_depth cfg -> Pos d p) ->
+  analyze_cancel basis cfg k s p = (sk, (pv, v, d, acc, c)) ->
+  SI sk /\ (0 < d -> exact_result basis cfg p pv v d).
+Proof. exact analyze_precise_exact_indexed. Qed.
+Print Assumptions C05_analyze_precise_exact_indexed_partial.
+
+(* ---- the hypotheses discharged (SearchNeg2-5.v), instantiated model (hash basis regenerated from /repo) ----
+   base_ok p   = Preserve1.pos_ok p (the invariant of C01: what New establishes and every accepted move preserves)
+                 /\ total p <= 255 (pieces on the board + reserves: the byte reserves cannot wrap, C02) /\ 0 <= move p
+                 /\ supply p (in the two opening plies the stones about to be placed exist).
+   within d p  = in the tree of depth d below p (finished games are not expanded) every node has at most 690 generated moves and no
+                 accepted move builds a stack higher than 64:
+                   within 0 p = True;  within (S d) p = is_over p = false -> length (all_moves p) <= 690 /\
+                                                         forall m q, Refine.mv p m = Ok q -> heights64 q /\ within d q.
+                 690 is the loop fuel of the MODEL (Search.v: 700); the Go code appends to a slice and has no such limit.  It is NOT
+                 a universal bound: a 6x6 position with ten stacks of six owned by the mover has more than 1200 generated moves.
+   dmax cfg    = min (c_depth cfg) 16, the deepest iteration Analyze runs.
+   max_terminal_ply = 2 684 354 (C18: beyond it a won game's score can leave the decided range).
+   Discharged: closure of the position set under moves (C01 move_exact), "an accepted hint move leads where a generated move leads"
+   (C03 allmoves_complete), "a live position has a legal generated move" (C04_live_has_legal_move + C02 game_over_iff: GameOver always
+   answers), |eval| <= MaxEval (EvaluateWinner: by cases; built-in evaluator: C18_all_in_root_window). *)
+Theorem C05_analyze_precise_exact_winner : forall cfg, precise cfg -> c_eval cfg = evaluate_winner ->
+  forall k s p sk pv v d acc c, SI s -> base_ok p -> within (dmax cfg) p ->
+  analyze_cancel gen_basis cfg k s p = (sk, (pv, v, d, acc, c)) ->
+  SI sk /\ (0 < d -> exact_result gen_basis cfg p pv v d).
+Proof. exact analyze_exact_winner. Qed.
+Print Assumptions C05_analyze_precise_exact_winner.
+
+Theorem C05_analyze_precise_exact_default : forall cfg, precise cfg -> c_eval cfg = default_eval ->
+  forall k s p sk pv v d acc c, SI s -> base_ok p -> within (dmax cfg) p -> move p + Z.of_nat (dmax cfg) <= max_terminal_ply ->
+  analyze_cancel gen_basis cfg k s p = (sk, (pv, v, d, acc, c)) ->
+  SI sk /\ (0 < d -> exact_result gen_basis cfg p pv v d).
+Proof. exact analyze_exact_default. Qed.
+Print Assumptions C05_analyze_precise_exact_default.
+
+(* AllMoves on boards up to 5x5: at most 3 entries per empty square and 12 per piece of a stack *)
+Theorem C05_all_moves_small : forall p, (3 <= size p <= 5)%N -> length (Height p) = (N.to_nat (size p) * N.to_nat (size p))%nat ->
+  (length (all_moves p) <= 75 + 12 * N.to_nat (sumH (Height p)))%nat.
+Proof. exact all_moves_small. Qed.
+Print Assumptions C05_all_moves_small.
+
+(* hence the side condition holds at every depth on boards up to 5x5 with at most 51 pieces in the game (standard sets: 20, 30, 44) *)
+Theorem C05_within_small : forall d p, pos_ok p -> (size p <= 5)%N -> (total p <= 51)%N -> within d p.
+Proof. exact within_small. Qed.
+Print Assumptions C05_within_small.
+
+(* C05 clause 1, no hypothesis about the rules engine or the evaluator: MakePrecise options, no table, any sort setting, either
+   evaluator of the check (builtin_eval cfg: c_eval cfg = evaluate_winner \/ c_eval cfg = default_eval), any engine state left by
+   earlier calls, cancelled at any point or never: whenever a depth d > 0 is reported, the value is the exhaustive negamax value to
+   depth d and the first move of the line attains it; the state afterwards satisfies SI again. *)
+Theorem C05_analyze_precise_exact : forall cfg, precise cfg -> builtin_eval cfg ->
+  forall k s p sk pv v d acc c,
+  SI s -> base_ok p -> (size p <= 5)%N -> (total p <= 51)%N -> move p + 16 <= max_terminal_ply ->
+  analyze_cancel gen_basis cfg k s p = (sk, (pv, v, d, acc, c)) ->
+  SI sk /\ (0 < d -> exact_result gen_basis cfg p pv v d).
+Proof. exact analyze_exact_small. Qed.
+Print Assumptions C05_analyze_precise_exact.
+
+(* ... in particular for every position of a game: replayed from tak.New(size 3..5, any tie-break flag, any piece set of at most 51
+   pieces with at least one stone) through any sequence of accepted moves *)
+Theorem C05_analyze_precise_exact_game : forall cfg, precise cfg -> builtin_eval cfg ->
+  forall sz bwt stones caps ms p, (3 <= sz <= 5)%N -> (0 < stones)%N -> (2 * (stones + caps) <= 51)%N ->
+  replay (new_pos sz bwt stones caps) ms = Ok p -> Z.of_nat (length ms) + 16 <= max_terminal_ply ->
+  forall k s sk pv v d acc c, SI s ->
+  analyze_cancel gen_basis cfg k s p = (sk, (pv, v, d, acc, c)) ->
+  SI sk /\ (0 < d -> exact_result gen_basis cfg p pv v d).
+Proof. exact analyze_exact_game. Qed.
+Print Assumptions C05_analyze_precise_exact_game.
+
+(* Non-vacuity, computed on the instantiated model (vm_compute): q4 = the 3x3 position after a1 c3 b2 b1 (White to move, live);
+   depth 3, sorted, built-in evaluator: every hypothesis of C05_analyze_precise_exact_default holds, the call reports depth 3 with the
+   line c1, Sc2, b3 and the value 960 - which is the value of exhaustive negamax (computed separately). *)
+Theorem C05_example_default : 
+  precise cfg3 /\ c_eval cfg3 = default_eval /\ SI (new_state 0) /\ base_ok q4 /\ within (dmax cfg3) q4 /\
+  move q4 + Z.of_nat (dmax cfg3) <= max_terminal_ply /\ is_over q4 = false /\
+  obs (run_analyze cfg3 0 (new_state 0) q4) =
+    ([{| mX := 2; mY := 0; mT := 2; mS := 0 |}; {| mX := 2; mY := 1; mT := 3; mS := 0 |}; {| mX := 1; mY := 2; mT := 2; mS := 0 |}], 960, 3, false) /\
+  nmx gen_basis default_eval 3 q4 = 960.
+Proof. exact ex_default3. Qed.
+Print Assumptions C05_example_default.
+
+(* q4w = after a3 a1 b1 b3: White completes the road with c1; EvaluateWinner: depth 1, value WinBase (decisive), = negamax *)
+Theorem C05_example_winner :
+  precise cfg3w /\ c_eval cfg3w = evaluate_winner /\ base_ok q4w /\ within (dmax cfg3w) q4w /\ is_over q4w = false /\
+  obs (run_analyze cfg3w 0 (new_state 0) q4w) = ([{| mX := 2; mY := 0; mT := 2; mS := 0 |}], Eval.WinBase, 1, false) /\
+  nmx gen_basis evaluate_winner 1 q4w = Eval.WinBase /\ WinThreshold < Eval.WinBase.
+Proof. exact ex_winner. Qed.
+Print Assumptions C05_example_winner.
+
+(* one engine, three calls on q4: uninterrupted, cancelled inside the 40th leaf evaluation (reports its deepest completed
+   iteration: depth 1 with the depth-1 negamax value), uninterrupted again on the state the cancelled call left *)
+Theorem C05_example_reused_engine :
+  let '(s1, r1) := run_analyze cfg3 0 (new_state 0) q4 in
+  let '(s2, r2) := run_analyze cfg3 40 s1 q4 in
+  let '(s3, r3) := run_analyze cfg3 0 s2 q4 in
+  (r_value r1, r_depth r1, r_canceled r1, r_value r2, r_depth r2, r_canceled r2, r_value r3, r_depth r3, r_canceled r3)
+  = (960, 3, false, nmx gen_basis default_eval 1 q4, 1, true, 960, 3, false).
+Proof. exact ex_reused. Qed.
+Print Assumptions C05_example_reused_engine.
 
 (* a fresh engine without a table satisfies SI *)
 Theorem C05_fresh_engine_invariant : SI (new_state 0).
